@@ -10,7 +10,7 @@ from harness.translators import regen_loops
 
 MODULE = "CddVerif.Properties.C11"
 THEOREMS = [
-    "C11.all_while_registered", "C11.registry_all_present", "C11.all_recursive_registered",
+    "C11.all_while_registered", "C11.registry_all_present", "C11.all_recursive_registered", "C11.all_other_registered",
     "C11.skip_bound", "C11.loopA_bound", "C11.loopA_bound_neg", "C11.loopB_bound", "C11.loopC_bound",
     "C11.union_bound", "C11.find_bound", "C11.pinned_never_returns",
     "Loop.WhileLoop.run_count_le", "Loop.WhileLoop.runFuel_eq",
@@ -234,11 +234,14 @@ def run(chk: core.Check) -> int:
     (whiles, recs), _ = regen_loops()
     chk.lean(MODULE, THEOREMS)
     chk.trusted_base += [
-        "translator harness/translators/loops.py: enumerates every ast.While and every directly self-recursive function of non-test code (%d while loops, %d recursive functions this run); mutual recursion through other names and recursion via callbacks are not enumerated" % (len(whiles), len(recs)),
+        "translator harness/translators/loops.py: enumerates every ast.While and every directly self-recursive function of non-test code (%d while loops, %d recursive functions this run); mutual recursion through other names and recursion via callbacks are not enumerated; a third table lists infinite iterators (itertools.count/cycle/repeat), two-argument iter(), every use of the re module and for-loops that grow their own iterable" % (len(whiles), len(recs)),
         "loop models (Model/Loops.lean, Model/DocstringUtils.lean) are tied to the code by comparing the number of `while` header line events (sys.settrace) with the model's step count on the same input; find_in_ast is modelled abstractly (any body) and only its bound is compared",
         "`for` loops range over finite sequences; wall-clock time is not modelled (bound is on loop iterations); every real call runs under a watchdog",
     ]
     chk.coverage["while_loops"] = [{k: w[k] for k in ("file", "func", "line", "test")} for w in whiles]
+    from harness.translators import OTHERS
+
+    chk.coverage["other_unbounded_iteration_sites"] = [{k: o[k] for k in ("file", "func", "line", "kind", "what")} for o in OTHERS]
     rng = chk.rng
     have_driver = core.DRIVER.exists()
 
